@@ -309,6 +309,21 @@ for _n in (1, 2, 3):
              pp(*["p%d" % i for i in range(_n + 1)]) + pp(*["q%d" % i for i in range(_m + 1)]) + ["u", "v"],
              ["v"], "MinimumCurveDistanceFinder.S(u, v) for orders %d x %d" % (_n + 1, _m + 1))(_S(_n, _m))
 
+def _D(n, m):
+    def f():
+        a = _KL[n](*["p%d" % i for i in range(n + 1)])
+        b = _KL[m](*["q%d" % i for i in range(m + 1)])
+        fd = cdm.MinimumCurveDistanceFinder(a, b)
+        return [fd.D(r, k) for r in range(2 * n + 1) for k in range(2 * m + 1)]
+    return f
+
+
+for _n in (1, 2, 3):
+    for _m in (1, 2, 3):
+        spec("Dist", "D_%d_%d" % (_n, _m),
+             pp(*["p%d" % i for i in range(_n + 1)]) + pp(*["q%d" % i for i in range(_m + 1)]),
+             "list", "MinimumCurveDistanceFinder.D(r, k) for r <= %d, k <= %d, row major" % (2 * _n, 2 * _m))(_D(_n, _m))
+
 # =============================================================================== Length (C04)
 
 spec("Length", "cubic_length", pp("p0", "p1", "p2", "p3"), ["v"], "ArcLengthMixin.length on a CubicBezier (24-point Gauss-Legendre)")(lambda: [cub().length])
